@@ -636,11 +636,29 @@ class Hist:
         self.nsets = 0
         self.lines = ['C05 new %d %d %d' % (self.grid_dep, self.wl_dep, self.maxN)]
         self.expect = [None]     # per line: None or dict of real observations
+        # histories of the setter classes go through the model's parameter-value layer (`pstep`): what each instance handed out
+        # was built from (object identity, content, kind of the value at the version the real instance first appeared)
+        self.pmode = case.get('style') in ('setter-kind', 'setter-same-object', 'attribute-kind', 'each-attribute', 'each-setter')
+        self.pobj = {}           # id of a value object -> small number
+        self.pvals = []          # one value per parameter version
+        if self.pmode:
+            n0 = case['ops'] and next((op[1] for op in case['ops'] if op[0] in ('set', 'setm', 'setsame', 'attr')), None)
+            self.pname = n0
+            v0 = self.live[n0] if n0 in self.live else (spec.values[n0][self.params[n0]] if n0 else None)
+            self.pvals.append(self.pval(v0, self.params.get(n0, 0)))
+            self.lines.append('C05 pnew %d %d %d' % self.pvals[0])
+            self.expect.append(None)
         self.counts = {}
         self.pending_setter = None
         self.pending_how = 'set'
         self.cell_prev = {}      # instance index -> the transfer-function object its FourierFilter held after its last use
         self.fourier_seen = {}   # id of an owned Fourier object -> [type name, precisions it was used with, the object]
+
+    def pval(self, obj, idx):
+        kinds = {'callable(grid)': 1, 'callable(wavelength)': 2, 'callable(grid,wavelength)': 3}
+        name = self.pname
+        kind = kinds.get(value_kind(self.spec.values[name][idx]) if name else 'scalar', 0)
+        return (self.pobj.setdefault(id(obj), len(self.pobj)), int(idx), kind)
 
     def count(self, k):
         self.counts[k] = self.counts.get(k, 0) + 1
@@ -797,6 +815,14 @@ class Hist:
                     self.count('reqc:rebuilt=' + obs['rebuilt'])
                 except Exception as e:
                     self.state_issue('cannot read the memo cell of the instance handed out: %r' % (e,))
+        if self.pmode and line.startswith('C05 req '):
+            line = 'C05 preq' + line[len('C05 req'):]
+            if 'ver' in obs:
+                ver = int(obs['ver'])
+                obs['built'] = '%d.%d.%d' % self.pvals[ver] if ver < len(self.pvals) else 'unknown-version-%d' % ver
+            obs.pop('id', None)
+            obs.pop('ver', None)
+            self.count('preq')
         self.lines.append(line)
         self.expect.append(obs)
 
@@ -901,7 +927,12 @@ class Hist:
                                          'attr': 'attribute+clear_cache'}[kind], spec.name, name))
                 if kind != 'setsame':
                     self.count('value-kind:%s' % value_kind(spec.values[name][idx]))
-                self.lines.append('C05 set')
+                if self.pmode and name == self.pname:
+                    self.pvals.append(self.pval(value, idx))
+                    self.lines.append('C05 pset %d %d %d' % self.pvals[-1])
+                else:
+                    self.pmode = False
+                    self.lines.append('C05 set')
                 self.expect.append(dict(status='ok', **self.real_state()))
                 continue
             try:
@@ -2419,7 +2450,7 @@ def compare_with_model(ctx, batch):
             ctx.traces_validated += 1
             m = parse_model(resp)
             diffs = []
-            for f in ('status', 'id', 'key', 'ver', 'num', 'cache', 'slot', 'rebuilt', 'res'):
+            for f in ('status', 'id', 'key', 'ver', 'num', 'cache', 'slot', 'rebuilt', 'res', 'built'):
                 if f in exp and exp[f] != m.get(f):
                     diffs.append('%s: code %s model %s' % (f, exp[f], m.get(f)))
             if 'how' in m:
